@@ -1410,8 +1410,14 @@ def explore_threads(prop, tier, rep, names, bound, cap):
     jobs = [(name, i, bound, cap, core.seed()) for i, name in enumerate(names)]
     if len(jobs) > 1:
         ctx = core.multiprocessing.get_context('fork')
-        with ctx.Pool(min(16, len(jobs))) as pool:
-            results = dict(pool.map(_explore_one_scenario, jobs, chunksize=1))
+        import gc
+        gc.collect()
+        gc.freeze()         # see core.pmap
+        try:
+            with ctx.Pool(min(16, len(jobs))) as pool:
+                results = dict(pool.map(_explore_one_scenario, jobs, chunksize=1))
+        finally:
+            gc.unfreeze()
     else:
         results = dict(_explore_one_scenario(j) for j in jobs)
     S = threadcheck.scenarios()
